@@ -35,15 +35,12 @@ pub(crate) struct PubSocketBackend {
 impl PubSocketBackend {
     /// Forgets connection `conn` of a peer, not a newer connection registered under its identity.
     ///
-    /// The table is awaited, here and in `message_received`: both run in the reader tasks, and
-    /// a blocking wait there can stop a worker thread that has the very task queued on it that
-    /// holds the lock (a `send` walking the table).
-    async fn forget_conn(&self, peer_id: &PeerIdentity, conn: u64) {
+    /// (Every operation on the table is blocking and brief, none is awaited: see `send`.)
+    fn forget_conn(&self, peer_id: &PeerIdentity, conn: u64) {
         log::info!("Client disconnected {:?}", peer_id);
         let forgotten = self
             .subscribers
-            .remove_if_async(peer_id, |subscriber| subscriber.conn == conn)
-            .await
+            .remove_if_sync(peer_id, |subscriber| subscriber.conn == conn)
             .is_some();
         if forgotten {
             if let Some(monitor) = self.monitor().lock().as_mut() {
@@ -52,7 +49,7 @@ impl PubSocketBackend {
         }
     }
 
-    async fn message_received(&self, peer_id: &PeerIdentity, conn: u64, message: Message) {
+    fn message_received(&self, peer_id: &PeerIdentity, conn: u64, message: Message) {
         let data = match message {
             Message::Message(m) => {
                 if m.len() != 1 {
@@ -71,7 +68,7 @@ impl PubSocketBackend {
         match data.first() {
             Some(1) => {
                 // Subscribe
-                if let Some(mut entry) = self.subscribers.get_async(peer_id).await {
+                if let Some(mut entry) = self.subscribers.get_sync(peer_id) {
                     if entry.conn == conn {
                         entry.subscriptions.push(Vec::from(&data[1..]));
                     }
@@ -80,7 +77,7 @@ impl PubSocketBackend {
             Some(0) => {
                 // Unsubscribe
                 let sub = Vec::from(&data[1..]);
-                if let Some(mut entry) = self.subscribers.get_async(peer_id).await {
+                if let Some(mut entry) = self.subscribers.get_sync(peer_id) {
                     if entry.conn == conn {
                         if let Some(index) = entry.subscriptions.iter().position(|s| s == &sub) {
                             entry.subscriptions.remove(index);
@@ -122,7 +119,7 @@ impl MultiPeerBackend for PubSocketBackend {
         let (sender, stop_receiver) = oneshot::channel();
         let conn = crate::backend::next_conn();
         self.subscribers
-            .upsert_async(
+            .upsert_sync(
                 peer_id.clone(),
                 Subscriber {
                     conn,
@@ -130,8 +127,7 @@ impl MultiPeerBackend for PubSocketBackend {
                     send_queue: crate::backend::SubscriberQueue::new(send_queue),
                     _subscription_coro_stop: sender,
                 },
-            )
-            .await;
+            );
         // The reader task must not keep the backend alive: the backend owns the task's stop
         // channel, so a strong reference here is a cycle that only `shutdown()` breaks, and a
         // peer registered after `shutdown()` (handshake finishing while the socket is dropped)
@@ -151,14 +147,14 @@ impl MultiPeerBackend for PubSocketBackend {
                             None => break,
                         };
                         match message {
-                            Some(Ok(m)) => backend.message_received(&peer_id, conn, m).await,
+                            Some(Ok(m)) => backend.message_received(&peer_id, conn, m),
                             Some(Err(e)) => {
                                 log::debug!("Error receiving message: {:?}", e);
-                                backend.forget_conn(&peer_id, conn).await;
+                                backend.forget_conn(&peer_id, conn);
                                 break;
                             }
                             None => {
-                                backend.forget_conn(&peer_id, conn).await;
+                                backend.forget_conn(&peer_id, conn);
                                 break
                             }
                         }
@@ -202,50 +198,51 @@ impl SocketSend for PubSocket {
         }
         let mut dead_peers = Vec::new();
         let mut unflushed = false;
-        // The walk is not a snapshot: when the table shrinks under it (subscribers leaving on
-        // other threads) it resumes at an earlier bucket and meets entries again.
-        let mut served = std::collections::HashSet::new();
-        let mut iter = self.backend.subscribers.begin_async().await;
-        while let Some(mut subscriber) = iter {
-            if !served.insert(subscriber.conn) {
-                iter = subscriber.next_async().await;
-                continue;
+        // The whole walk is one synchronous pass: no task is ever suspended while it holds a bucket
+        // of the table, so every other operation on the table - all of them blocking, none of
+        // them awaited - only ever waits for a thread that is running.
+        let mut fatal = None;
+        let first_frame = message.get(0).unwrap();
+        self.backend.subscribers.retain_sync(|peer_id, subscriber| {
+            if fatal.is_some() {
+                return true;
             }
-            for sub_filter in &subscriber.subscriptions {
-                if sub_filter.len() <= message.get(0).unwrap().len()
-                    && sub_filter.as_slice() == &message.get(0).unwrap()[0..sub_filter.len()]
+            let matches = subscriber.subscriptions.iter().any(|sub_filter| {
+                sub_filter.len() <= first_frame.len()
+                    && sub_filter.as_slice() == &first_frame[0..sub_filter.len()]
+            });
+            if matches {
+                match subscriber
+                    .send_queue
+                    .try_send(Message::Message(message.clone()))
                 {
-                    let res = subscriber
-                        .send_queue
-                        .try_send(Message::Message(message.clone()));
-                    match res {
-                        Ok(flushed) => unflushed |= !flushed,
-                        Err(ZmqError::Codec(CodecError::Io(e))) => {
-                            if e.kind() == ErrorKind::BrokenPipe {
-                                dead_peers.push((subscriber.key().clone(), subscriber.conn));
-                            } else {
-                                log::error!("Error receiving message: {:?}", e);
-                            }
-                        }
-                        Err(ZmqError::BufferFull(_)) => {
-                            // ignore silently. https://rfc.zeromq.org/spec/29/ says:
-                            // For processing outgoing messages:
-                            //   SHALL silently drop the message if the queue for a subscriber is full.
-                            log::debug!("Queue for subscriber is full",);
-                            unflushed = true;
-                        }
-                        Err(e) => {
+                    Ok(flushed) => unflushed |= !flushed,
+                    Err(ZmqError::Codec(CodecError::Io(e))) => {
+                        if e.kind() == ErrorKind::BrokenPipe {
+                            dead_peers.push((peer_id.clone(), subscriber.conn));
+                        } else {
                             log::error!("Error receiving message: {:?}", e);
-                            return Err(e);
                         }
                     }
-                    break;
+                    Err(ZmqError::BufferFull(_)) => {
+                        // Silently drop the message if the queue for a subscriber is full.
+                        // https://rfc.zeromq.org/spec/29/
+                        log::debug!("Queue for subscriber is full");
+                        unflushed = true;
+                    }
+                    Err(e) => {
+                        log::error!("Error receiving message: {:?}", e);
+                        fatal = Some(e);
+                    }
                 }
             }
-            iter = subscriber.next_async().await;
+            true
+        });
+        if let Some(e) = fatal {
+            return Err(e);
         }
         for (peer, conn) in dead_peers {
-            self.backend.forget_conn(&peer, conn).await;
+            self.backend.forget_conn(&peer, conn);
         }
         if unflushed {
             self.unflushed_publishes += 1;
